@@ -24,6 +24,8 @@ import MayVerif.Model.Chan.MpmcReplay
 import MayVerif.Model.Chan.SpscReplay
 import MayVerif.Model.Queue.TimerListReplay
 import MayVerif.Model.Runtime.ParkReplay
+import MayVerif.Model.CqueueReplay
+import MayVerif.Model.LocalReplay
 open MayVerif
 
 def machines : List (String × Machine) := [
@@ -53,10 +55,14 @@ def machines : List (String × Machine) := [
   ("io_timeout_race", MayVerif.Io.machine),
   ("io_cancel", MayVerif.Io.machine),
   ("io_cancel_shared", MayVerif.Io.machine),
+  ("io_unix_iter", MayVerif.Io.machine),
+  ("io_unix_churn", MayVerif.Io.machine),
   ("ch_mpmc", MayVerif.Chan.Mpmc.machine),
   ("ch_spsc", MayVerif.Chan.Spsc.machine),
   ("mq_tl", MayVerif.TimerList.machine),
   ("park", MayVerif.Park.machine),
   ("blocker", MayVerif.Park.machine),
-  ("blocker_thr", MayVerif.Park.machine)
+  ("blocker_thr", MayVerif.Park.machine),
+  ("cqueue", MayVerif.Cqueue.machine),
+  ("local", MayVerif.Local.machine)
 ]
